@@ -6,6 +6,7 @@ import (
 	"encoding/json"
 	"fmt"
 	"os"
+	"regexp"
 	"sort"
 	"strconv"
 	"strings"
@@ -94,6 +95,7 @@ type Report struct {
 	journal      *os.File
 	lastCheckpoint time.Time
 	budget       float64
+	known        []*regexp.Regexp
 }
 
 func NewReport(property string) *Report {
@@ -124,8 +126,25 @@ func (r *Report) Eval(n int) {
 func (r *Report) Enough() bool {
 	r.mu.Lock()
 	defer r.mu.Unlock()
+	if r.known == nil {
+		r.known = []*regexp.Regexp{}
+		var pats []string
+		if json.Unmarshal([]byte(os.Getenv("VERIF_KNOWN_SIGS")), &pats) == nil {
+			for _, p := range pats {
+				if re, err := regexp.Compile("^(?:" + p + ")$"); err == nil {
+					r.known = append(r.known, re)
+				}
+			}
+		}
+	}
 	n := 0
-	for _, c := range r.violBySig {
+sigs:
+	for sig, c := range r.violBySig {
+		for _, re := range r.known {
+			if re.MatchString(sig) {
+				continue sigs // a listed known finding must not cut the exploration short
+			}
+		}
 		n += c
 	}
 	return n >= 25
